@@ -743,7 +743,16 @@ func (am *AccountingManager) persistActiveSession(session *AccountingSession) {
 		return
 	}
 
-	if err := os.WriteFile(path, data, 0600); err != nil {
+	// Write to a temporary file and rename it into place: the file is also
+	// rewritten for a live session (StopSession), and a crash in the middle of
+	// an in-place write would leave a truncated file that recovery discards,
+	// losing the session's Accounting-Stop.
+	tmp := path + ".tmp"
+	if err := os.WriteFile(tmp, data, 0600); err != nil {
+		am.logger.Debug("Failed to persist session", zap.Error(err))
+		return
+	}
+	if err := os.Rename(tmp, path); err != nil {
 		am.logger.Debug("Failed to persist session", zap.Error(err))
 	}
 }
